@@ -102,7 +102,7 @@ theorem dagTx_accept {allowed : List String} {rej strict : Bool} {E : Env} {o fr
       E.verifies v.key s.alg 0 = true ∧
       ((v.src = .embedded 0 ∧ E.embeddedKey 0 = some v.key ∧ s.jwk ≠ .absent ∧ s.kid = "") ∨
        (v.src = .resolver s.kid ∧ E.resolve s.kid = some v.key ∧ s.jwk = .absent ∧ s.kid ≠ "")) ∧
-      (rej = true → s.jwk ≠ .priv) ∧ (strict = true → fr = true) := by
+      (rej = true → s.jwk ≠ .priv) ∧ (strict = true → fr = true) ∧ E.fits v.key s.alg = true := by
   unfold dagTx at h
   split at h; · cases h
   split at h; · cases h
@@ -121,10 +121,12 @@ theorem dagTx_accept {allowed : List String} {rej strict : Bool} {E : Env} {o fr
     split at h
     · cases h
     · next k src hkey =>
+      split at h; · cases h
+      next hfit =>
       split at h
       · next hver =>
         injection h with h
-        refine ⟨s, _, hs, h.symm, rfl, rfl, by simpa using hal, rfl, hver, ?_, ?_, ?_⟩
+        refine ⟨s, _, hs, h.symm, rfl, rfl, by simpa using hal, rfl, hver, ?_, ?_, ?_, by simpa using hfit⟩
         · simp only [Bool.or_eq_true, Bool.and_eq_true, decide_eq_true_eq, not_or, not_and] at hxor
           by_cases hj : s.jwk = .absent
           · right
@@ -315,18 +317,20 @@ theorem authzV1_accept {sup : List String} {E : Env} {issuer : String} {ip : Boo
 theorem ldProof_accept {L : LdEnv} {key : Key} {canon : Bool} {parts : Nat} {dec : Bool} {vs : List Verified}
     (h : ldProofVerify L key canon parts dec = .accept vs) :
     ∃ alg, vs = [{ key := key, src := .caller, alg := alg, idx := 0, overSigningInput := true }] ∧
-      L.keyAlg key = some alg ∧ L.verifiesDetached key alg = true ∧ parts = 2 := by
+      L.keyAlg key = some alg ∧ L.verifiesDetached key alg = true ∧ parts = 2 ∧ L.fits key alg = true := by
   unfold ldProofVerify at h
   split at h; · cases h
   split at h; · cases h
   next alg hka =>
+  split at h; · cases h
+  next hfit =>
   split at h; · cases h
   next hparts =>
   split at h; · cases h
   split at h
   · next hver =>
     injection h with h
-    exact ⟨alg, h.symm, hka, hver, by simpa using hparts⟩
+    exact ⟨alg, h.symm, hka, hver, by simpa using hparts, by simpa using hfit⟩
   · cases h
 
 /-! ### key-carrying headers do not influence the decision where no embedded key is mandated -/
